@@ -328,6 +328,83 @@ def _nf_chunk(states):
     return n, fails
 
 
+# --------------------------------------------------------------------------- GroupAlgebra: MC + B1
+GFRAG = {"a": "lin", "b": "ux"}
+
+
+def _gtxt(seq) -> str:
+    return "".join(GFRAG[c] for c in seq)
+
+
+def _gbuild(v: dict):
+    from dep_logic.markers.single import EqualityMarkerUnion, InequalityMultiMarker, MarkerExpression
+    from dep_logic.utils import OrderedSet
+    if v["k"] == "atom":
+        return MarkerExpression("sys_platform", v["op"], _gtxt(v["v"]))
+    cls = EqualityMarkerUnion if v["k"] == "eq" else InequalityMultiMarker
+    return cls("sys_platform", OrderedSet([_gtxt(x) for x in v["vals"]]))
+
+
+def _group_chunk(states):
+    import itertools
+    from dep_logic.markers import MarkerUnion, MultiMarker
+    cands = ["".join(GFRAG[c] for c in t) for n in range(4) for t in itertools.product("ab", repeat=n)]
+    fails, n = [], 0
+    for st in states:
+        x, y, op = _gbuild(st["x"]), _gbuild(st["y"]), st["op"]
+        ctx = {"kind": "group-vector", "x": str(x), "y": str(y), "op": op, "spec_result": st["res"]["k"]}
+        site = f"{op}({st['x']['k']}{st['x']['op'] and ':' + st['x']['op']},{st['y']['k']}{st['y']['op'] and ':' + st['y']['op']})"
+        n += 1
+        try:
+            r = (x & y) if op == "and" else (x | y)
+        except Exception as e:  # noqa: BLE001
+            fails.append(("C02", f"C02:group-b1:{site}:raises-{type(e).__name__}", f"{x} {op} {y}: {e!r}", ctx))
+            continue
+        tx = [bool(x.evaluate({"sys_platform": c})) for c in cands]
+        ty = [bool(y.evaluate({"sys_platform": c})) for c in cands]
+        want = [(a and b) if op == "and" else (a or b) for a, b in zip(tx, ty)]
+        got = [bool(r.evaluate({"sys_platform": c})) for c in cands]
+        ctx["result"] = drive_marker._key(r)
+        if got != want:
+            fails.append(("C02", f"C02:group-b1:{site}:table", f"{x} {op} {y} -> {ctx['result']!r}: wrong on {[c for c, g, w in zip(cands, got, want) if g != w][:4]}", ctx))
+        if not isinstance(r, (MultiMarker, MarkerUnion)) or True:
+            reason = nf_reason(drive_marker.shape_of(r))
+            if reason:
+                fails.append(("C15", f"C15:{op}:normal_form:{reason}", f"{x} {op} {y} -> {ctx['result']!r}", ctx))
+    return n, fails
+
+
+def group_algebra_mc(rep: Report, pid: str, thorough: bool) -> None:
+    """TLC on GroupAlgebra (==/!= group tables of single.py) + replay of every transition on the real classes."""
+    tmp = tempfile.mkdtemp(prefix="verif_ga_")
+    try:
+        cfgp = os.path.join(tmp, "c.cfg")
+        open(cfgp, "w").write(f"SPECIFICATION ASpec\nCONSTANTS\n MaxLit = 2\n GroupLits <- {'LitsGroup4' if thorough else 'LitsGroup3'}\n"
+                              "INVARIANT TableExact\nINVARIANT GroupsNormal\nCHECK_DEADLOCK FALSE\n")
+        d = os.path.join(tmp, "d")
+        r = tla.run_tlc("GroupAlgebraMC.tla", cfgp, workers=16, args=["-dump", d])
+        if r.violated:
+            rep.violation(f"{pid}:spec:GroupAlgebra:{r.violated}", f"TLC: invariant {r.violated} violated by the transcribed group tables", {"tlc_tail": r.out[-2000:]})
+            return
+        tla.require_ok(r, "TLC GroupAlgebra")
+        rep.add("states", r.distinct)
+        rep.add("transitions", r.generated)
+        rep.cov.setdefault("tlc_runs", []).append({"module": "GroupAlgebra", "invariants": ["TableExact", "GroupsNormal"], "distinct": r.distinct, "wall_s": round(r.wall, 1)})
+        states = [s for s in tla.load_dump(d + ".dump") if s["op"] != "init"]
+    finally:
+        shutil.rmtree(tmp, ignore_errors=True)
+    size = max(1, len(states) // 32)
+    total = 0
+    with mp.Pool(16) as pool:
+        for n, fails in pool.map(_group_chunk, [states[i:i + size] for i in range(0, len(states), size)]):
+            total += n
+            for (p, sig, detail, vec) in fails:
+                if p == pid:
+                    rep.violation(sig, detail, vec)
+    rep.add("traces_validated_against_impl", total)
+    rep.count("group_table_vectors_replayed", total)
+
+
 def normal_form_mc(rep: Report, pid: str, thorough: bool) -> None:
     """TLC on MarkerNormalForm (the transcribed rewriting engine) + replay of every transition."""
     tmp = tempfile.mkdtemp(prefix="verif_nf_")
@@ -375,6 +452,8 @@ def run(pid: str, tier: str, replay: str | None = None) -> int:
         return _replay(rep, replay)
     if pid in ("C02", "C15", "C12"):
         normal_form_mc(rep, pid, thorough)
+    if pid in ("C02", "C15"):
+        group_algebra_mc(rep, pid, thorough)
     marker_sessions(rep, (pid,), n_random=(8000 if thorough else 900), n_law=(3000 if thorough else 400))
     rep.set(rule="random marker sessions (2-3 parsed markers of depth <= 2 over 2-3 variables, then &, |, reparse, only, exclude, "
                  "without_extras on earlier results); truth tables from the real evaluate() on the region grid of the session's literals; "
